@@ -29,49 +29,50 @@ void h5Unlink(const std::string &path, const std::string &grp, const std::string
     if (e < 0) throw std::runtime_error("harness: cannot unlink " + grp + "/" + name);
 }
 
-json handle(Ctx &c, const json &rec) {
-    const json &bs = rec["bs"];
-    auto on = [&](const char *k) { return bs[k].get<bool>(); };
-    std::string path = c.path("valid.nix");
-    long v = c.seed % 3;                       // base-file variation: data lengths
-    nix::ndsize_t n1 = 3 + (nix::ndsize_t) v, n2 = 4, n3 = 3 + (nix::ndsize_t) (v % 2), n4 = 2 + (nix::ndsize_t) v;
-    {
-        nix::File f = nix::File::open(path, nix::FileMode::Overwrite);
+// One session on the base file; breaches are injected / repaired IN PLACE so that entity ids (and whatever a stateful
+// validator may have remembered about them) survive from one validation to the next.
+struct Sess {
+    std::string path; long seed; nix::File f; std::set<std::string> cur;
+    nix::ndsize_t n1, n2 = 4, n3, n4;
+    bool on(const char *k) const { return cur.count(k) > 0; }
+    void open() { f = nix::File::open(path, nix::FileMode::ReadWrite); }
+    void close() { if (f) { f.close(); } f = nix::none; }
+    nix::Block b() { return f.getBlock("b"); }
+    nix::DataArray arr(const char *n) { return b().getDataArray(n); }
+
+    void build() {
+        long v = seed % 3;                       // base-file variation: data lengths
+        n1 = 3 + (nix::ndsize_t) v; n3 = 3 + (nix::ndsize_t) (v % 2); n4 = 2 + (nix::ndsize_t) v;
+        f = nix::File::open(path, nix::FileMode::Overwrite);
         nix::Block b = f.createBlock("b", "t");
         nix::DataArray a1 = b.createDataArray("a1", "t", nix::DataType::Double, nix::NDSize({n1, n2}));
-        nix::SampledDimension d11 = a1.appendSampledDimension(0.5, "time", "ms");
-        std::vector<double> ticks; for (nix::ndsize_t i = 0; i < n2 + (on("nticks") ? 1 : 0); i++) ticks.push_back(1.0 + 0.75 * i);
+        a1.appendSampledDimension(0.5, "time", "ms");
+        std::vector<double> ticks; for (nix::ndsize_t i = 0; i < n2; i++) ticks.push_back(1.0 + 0.75 * i);
         a1.appendRangeDimension(ticks, "voltage", "mV");
-        a1.unit(on("unit_nonsi") ? "foo" : "mV");
-        if (on("ndims_extra")) a1.appendSetDimension();
-        if (on("poly_noorigin")) a1.polynomCoefficients({1.0, 2.0});
-        if (on("offset_nounit")) { d11.offset(1.0); d11.unit(nix::none); }
+        a1.unit("mV");
         nix::DataArray a2 = b.createDataArray("a2", "t", nix::DataType::Double, nix::NDSize({n3}));
-        std::vector<std::string> labels; for (nix::ndsize_t i = 0; i < n3 - (on("nlabels") ? 1 : 0); i++) labels.push_back("l" + std::to_string(i));
+        std::vector<std::string> labels; for (nix::ndsize_t i = 0; i < n3; i++) labels.push_back("l" + std::to_string(i));
         a2.appendSetDimension(labels);
-        if (!on("unit_missing")) a2.unit("s");
-        if (on("ndims_extra2")) a2.appendSampledDimension(1.0);
-        if (on("origin_nopoly")) a2.expansionOrigin(1.0);
+        a2.unit("s");
         nix::DataArray a3 = b.createDataArray("a3", "t", nix::DataType::Double, nix::NDSize({n4}));
         std::vector<nix::Column> cols = {{"c0", "", nix::DataType::Double}};
         nix::DataFrame df = b.createDataFrame("df", "t", cols);
-        df.rows(n4 + (on("nrows") ? 1 : 0));
+        df.rows(n4);
         a3.appendDataFrameDimension(df, 0u);
         a3.unit("V");
         // arrays with several dimensions of the same kind: a breach in a later dimension must not hide behind an earlier one
         nix::DataArray a4 = b.createDataArray("a4", "t", nix::DataType::Double, nix::NDSize({2, 3}));
         a4.appendSetDimension();
-        { std::vector<std::string> l2; for (int i = 0; i < 3 - (on("nlabels_2nd") ? 1 : 0); i++) l2.push_back("m" + std::to_string(i)); a4.appendSetDimension(l2); }
+        a4.appendSetDimension(std::vector<std::string>{"m0", "m1", "m2"});
         a4.unit("V");
         nix::DataArray a5 = b.createDataArray("a5", "t", nix::DataType::Double, nix::NDSize({2, 3}));
-        { std::vector<double> t1, t2; for (int i = 0; i < 2 + (on("nticks_1st") ? 1 : 0); i++) t1.push_back(i); for (int i = 0; i < 3 + (on("nticks_2nd") ? 2 : 0); i++) t2.push_back(0.5 * i);
-          a5.appendRangeDimension(t1, "x", "ms"); a5.appendRangeDimension(t2, "y", "ms"); }
+        a5.appendRangeDimension({0.0, 1.0}, "x", "ms"); a5.appendRangeDimension({0.0, 0.5, 1.0}, "y", "ms");
         a5.unit("V");
         nix::DataArray af1 = b.createDataArray("af1", "t", nix::DataType::Double, nix::NDSize({2})); af1.unit("V"); af1.appendSetDimension();
         nix::DataArray af2 = b.createDataArray("af2", "t", nix::DataType::Double, nix::NDSize({2})); af2.unit("V"); af2.appendSetDimension();
         nix::Tag t = b.createTag("tag", "t", {1.0, 2.0});
         t.extent({0.5, 1.0});
-        t.units({on("tagunit1") ? "mV" : "us", on("tagunit2") ? "s" : "V"});
+        t.units({"us", "V"});
         t.addReference(a1);
         t.createFeature(af1, nix::LinkType::Untagged);
         nix::DataArray p = b.createDataArray("pos", "t", nix::DataType::Double, nix::NDSize({2})); p.unit("s"); p.appendSetDimension();
@@ -80,54 +81,114 @@ json handle(Ctx &c, const json &rec) {
         m.createFeature(af2, nix::LinkType::Indexed);
         nix::Section s = f.createSection("sec", "t");
         nix::Property pr = s.createProperty("prop", nix::Variant(1.0));
-        if (!on("prop_nounit")) pr.unit("mV");
+        pr.unit("mV");
         b.metadata(s);
-        if (on("featnodata")) b.deleteDataArray(af1);
-        if (on("featnodata2")) b.deleteDataArray(af2);
-        f.close();
     }
-    // breaches the API does not let through are written with the HDF5 C API
-    if (on("unsorted")) { std::vector<double> t; nix::ndsize_t k = n2 + (on("nticks") ? 1 : 0); for (nix::ndsize_t i = 0; i < k; i++) t.push_back(1.0 + 0.75 * i); std::swap(t[0], t[2]); h5WriteTicks(path, "/data/b/data_arrays/a1/dimensions/2", t); }
-    if (on("interval0")) h5WriteInterval(path, "/data/b/data_arrays/a1/dimensions/1", (c.seed % 2) ? 0.0 : -1.0);
-    if (on("nopositions")) h5Unlink(path, "/data/b/multi_tags/mtag", "positions");
 
-    nix::File f = nix::File::open(path, nix::FileMode::ReadOnly);
-    nix::Block b = f.getBlock("b");
-    json obs = json::object();
-    json details = json::object();
-    auto rec1 = [&](const std::string &key, std::function<nix::valid::Result()> fn) {
-        try { nix::valid::Result r = fn(); obs[key] = r.hasErrors();
-              if (r.hasErrors()) { json m = json::array(); for (auto &e : r.getErrors()) m.push_back(e.msg); details[key] = m; } }
-        catch (const std::exception &e) { obs[key] = std::string("threw: ") + e.what(); }
-    };
-    nix::DataArray a1 = b.getDataArray("a1"), a2 = b.getDataArray("a2"), a3 = b.getDataArray("a3"), a4 = b.getDataArray("a4"), a5 = b.getDataArray("a5");
-    nix::Tag t = b.getTag("tag"); nix::MultiTag m = b.getMultiTag("mtag");
-    rec1("B", [&] { return nix::valid::validate(b); });
-    rec1("A1", [&] { return nix::valid::validate(a1); });
-    rec1("A2", [&] { return nix::valid::validate(a2); });
-    rec1("A3", [&] { return nix::valid::validate(a3); });
-    rec1("A4", [&] { return nix::valid::validate(a4); });
-    rec1("A5", [&] { return nix::valid::validate(a5); });
-    rec1("D11", [&] { return nix::valid::validate(a1.getDimension(1).asSampledDimension()); });
-    rec1("D12", [&] { return nix::valid::validate(a1.getDimension(2).asRangeDimension()); });
-    rec1("D21", [&] { return nix::valid::validate(a2.getDimension(1).asSetDimension()); });
-    rec1("D31", [&] { return nix::valid::validate(a3.getDimension(1)); });
-    rec1("T", [&] { return nix::valid::validate(t); });
-    rec1("M", [&] { return nix::valid::validate(m); });
-    rec1("FT", [&] { return nix::valid::validate(t.getFeature(0)); });
-    rec1("FM", [&] { return nix::valid::validate(m.getFeature(0)); });
-    rec1("S", [&] { return nix::valid::validate(f.getSection("sec")); });
-    rec1("PR", [&] { return nix::valid::validate(f.getSection("sec").getProperty("prop")); });
-    json exp = rec["errors"];
-    // the validation of the whole file reports an error iff some entity has one
-    bool any = false; for (auto it = exp.begin(); it != exp.end(); ++it) any = any || it.value().get<bool>();
-    exp["FILE"] = any;
-    try { obs["FILE"] = f.validate().hasErrors(); } catch (const std::exception &e) { obs["FILE"] = std::string("threw: ") + e.what(); }
-    f.close();
-    std::string d = firstDiff(exp, obs);
-    json r = d.empty() ? ok() : mismatch("valid:" + d, exp, obs);
-    if (!d.empty()) r["messages"] = details;
-    r["n"] = 17;
+    // brings the facet of the file that breach k lives in into the state given by cur
+    void sync(const std::string &k) {
+        if (k == "nticks" || k == "unsorted") {
+            std::vector<double> t; for (nix::ndsize_t i = 0; i < n2 + (on("nticks") ? 1 : 0); i++) t.push_back(1.0 + 0.75 * i);
+            if (on("unsorted")) { std::swap(t[0], t[2]); close(); h5WriteTicks(path, "/data/b/data_arrays/a1/dimensions/2", t); open(); }   // the API refuses it
+            else arr("a1").getDimension(2).asRangeDimension().ticks(t);
+        } else if (k == "unit_nonsi") { arr("a1").unit(on("unit_nonsi") ? "foo" : "mV");
+        } else if (k == "ndims_extra") { arr("a1").appendSetDimension();
+        } else if (k == "poly_noorigin") { if (on("poly_noorigin")) arr("a1").polynomCoefficients({1.0, 2.0}); else arr("a1").polynomCoefficients(nix::none);
+        } else if (k == "offset_nounit" || k == "dimunit1") {
+            nix::SampledDimension d = arr("a1").getDimension(1).asSampledDimension();
+            if (on("offset_nounit")) { d.offset(1.0); d.unit(nix::none); }
+            else { d.offset(nix::none); d.unit(on("dimunit1") ? "mV" : "ms"); }
+        } else if (k == "dimunit2") { arr("a1").getDimension(2).asRangeDimension().unit(on("dimunit2") ? "s" : "mV");
+        } else if (k == "interval0") {
+            if (on("interval0")) { close(); h5WriteInterval(path, "/data/b/data_arrays/a1/dimensions/1", (seed % 2) ? 0.0 : -1.0); open(); }      // the API refuses it
+            else arr("a1").getDimension(1).asSampledDimension().samplingInterval(0.5);
+        } else if (k == "nlabels") {
+            std::vector<std::string> l; for (nix::ndsize_t i = 0; i < n3 - (on("nlabels") ? 1 : 0); i++) l.push_back("l" + std::to_string(i));
+            arr("a2").getDimension(1).asSetDimension().labels(l);
+        } else if (k == "unit_missing") { if (on("unit_missing")) arr("a2").unit(nix::none); else arr("a2").unit("s");
+        } else if (k == "ndims_extra2") { arr("a2").appendSampledDimension(1.0);
+        } else if (k == "origin_nopoly") { if (on("origin_nopoly")) arr("a2").expansionOrigin(1.0); else arr("a2").expansionOrigin(nix::none);
+        } else if (k == "nrows") { b().getDataFrame("df").rows(n4 + (on("nrows") ? 1 : 0));
+        } else if (k == "nlabels_2nd") {
+            std::vector<std::string> l; for (int i = 0; i < 3 - (on("nlabels_2nd") ? 1 : 0); i++) l.push_back("m" + std::to_string(i));
+            arr("a4").getDimension(2).asSetDimension().labels(l);
+        } else if (k == "nticks_1st") { std::vector<double> t; for (int i = 0; i < 2 + (on("nticks_1st") ? 1 : 0); i++) t.push_back(i); arr("a5").getDimension(1).asRangeDimension().ticks(t);
+        } else if (k == "nticks_2nd") { std::vector<double> t; for (int i = 0; i < 3 + (on("nticks_2nd") ? 2 : 0); i++) t.push_back(0.5 * i); arr("a5").getDimension(2).asRangeDimension().ticks(t);
+        } else if (k == "tagunit1" || k == "tagunit2") { b().getTag("tag").units({on("tagunit1") ? "mV" : "us", on("tagunit2") ? "s" : "V"});
+        } else if (k == "prop_nounit") { nix::Property pr = f.getSection("sec").getProperty("prop"); if (on("prop_nounit")) pr.unit(nix::none); else pr.unit("mV");
+        } else if (k == "featnodata") { b().deleteDataArray("af1");
+        } else if (k == "featnodata2") { b().deleteDataArray("af2");
+        } else if (k == "nopositions") { close(); h5Unlink(path, "/data/b/multi_tags/mtag", "positions"); open();
+        } else throw std::runtime_error("harness: unknown breach " + k);
+    }
+    void inject(const std::string &k) { cur.insert(k); sync(k); }
+    void repair(const std::string &k) { cur.erase(k); sync(k); }
+
+    // runs the validator on every entity and on the file; returns "" or the first difference to the expected verdicts
+    std::string validate(json exp, json &obs, json &details) {
+        nix::Block b = f.getBlock("b");
+        obs = json::object(); details = json::object();
+        auto rec1 = [&](const std::string &key, std::function<nix::valid::Result()> fn) {
+            try { nix::valid::Result r = fn(); obs[key] = r.hasErrors();
+                  if (r.hasErrors()) { json m = json::array(); for (auto &e : r.getErrors()) m.push_back(e.msg); details[key] = m; } }
+            catch (const std::exception &e) { obs[key] = std::string("threw: ") + e.what(); }
+        };
+        nix::DataArray a1 = b.getDataArray("a1"), a2 = b.getDataArray("a2"), a3 = b.getDataArray("a3"), a4 = b.getDataArray("a4"), a5 = b.getDataArray("a5");
+        nix::Tag t = b.getTag("tag"); nix::MultiTag m = b.getMultiTag("mtag");
+        rec1("B", [&] { return nix::valid::validate(b); });
+        rec1("A1", [&] { return nix::valid::validate(a1); });
+        rec1("A2", [&] { return nix::valid::validate(a2); });
+        rec1("A3", [&] { return nix::valid::validate(a3); });
+        rec1("A4", [&] { return nix::valid::validate(a4); });
+        rec1("A5", [&] { return nix::valid::validate(a5); });
+        rec1("D11", [&] { return nix::valid::validate(a1.getDimension(1).asSampledDimension()); });
+        rec1("D12", [&] { return nix::valid::validate(a1.getDimension(2).asRangeDimension()); });
+        rec1("D21", [&] { return nix::valid::validate(a2.getDimension(1).asSetDimension()); });
+        rec1("D31", [&] { return nix::valid::validate(a3.getDimension(1)); });
+        rec1("T", [&] { return nix::valid::validate(t); });
+        rec1("M", [&] { return nix::valid::validate(m); });
+        rec1("FT", [&] { return nix::valid::validate(t.getFeature(0)); });
+        rec1("FM", [&] { return nix::valid::validate(m.getFeature(0)); });
+        rec1("S", [&] { return nix::valid::validate(f.getSection("sec")); });
+        rec1("PR", [&] { return nix::valid::validate(f.getSection("sec").getProperty("prop")); });
+        // the validation of the whole file reports an error iff some entity has one
+        bool any = false; for (auto it = exp.begin(); it != exp.end(); ++it) any = any || it.value().get<bool>();
+        exp["FILE"] = any;
+        try { obs["FILE"] = f.validate().hasErrors(); } catch (const std::exception &e) { obs["FILE"] = std::string("threw: ") + e.what(); }
+        return firstDiff(exp, obs);
+    }
+};
+
+json handle(Ctx &c, const json &rec) {
+    Sess s; s.path = c.path("valid.nix"); s.seed = c.seed;
+    s.build();
+    // breaches present from the start, in a fixed order (each facet is written once, from the full set)
+    for (auto it = rec["init"].begin(); it != rec["init"].end(); ++it) if (it.value().get<bool>()) s.cur.insert(it.key());
+    { std::set<std::string> todo = s.cur; for (auto &k : todo) s.sync(k); }
+    s.close(); s.open();
+    int n = 0;
+    json steps = rec["pre"]; steps.push_back(rec["step"]);
+    for (size_t i = 0; i < steps.size(); i++) {
+        const json &st = steps[i];
+        std::string a = st["a"].get<std::string>(), b = st["b"].get<std::string>();
+        if (a == "Inject") s.inject(b);
+        else if (a == "Repair") s.repair(b);
+        else if (a == "Reopen") { s.close(); s.open(); }
+        else if (a == "Validate") {
+            json obs, details;
+            std::string d = s.validate(st["errors"], obs, details);
+            n += 17;
+            if (!d.empty()) {
+                json exp = st["errors"];
+                json r = mismatch("valid:step" + std::to_string(i + 1) + ":" + d, exp, obs);
+                r["messages"] = details; r["n"] = n;
+                s.close();
+                return r;
+            }
+        } else throw std::runtime_error("harness: unknown step " + a);
+    }
+    s.close();
+    json r = ok(); r["n"] = n;
     return r;
 }
 Reg reg("valid", handle);
